@@ -139,6 +139,7 @@ type src struct {
 	A      *wire.RR `json:"a,omitempty"`    // build / random: the abstract record
 	Seg    hx.B     `json:"seg,omitempty"`  // unpack: the octets it was unpacked from
 	Text   hx.B     `json:"text,omitempty"` // zoo / generic: the text it was parsed from
+	Segs   []hx.B   `json:"segs,omitempty"` // zone: the octets each record of the sequence was unpacked from
 }
 
 type event struct {
@@ -152,9 +153,22 @@ type event struct {
 	Accepted bool         `json:"accepted"`        // ... and whether NewRR accepted it
 	Gomis    *hx.Mismatch `json:"gomis,omitempty"` // record mode: what the Go-side round trip saw; the driver reports it unless
 	// the specification places the record outside the alphabet of its type (the harness does not know the alphabets)
+	// a SEQUENCE of records (zone): text = the real String() of each record, one per line; wire = all the octets;
+	Zone  bool        `json:"zone,omitempty"`
+	Wires []hx.B      `json:"wires,omitempty"` // the real PackRR of each record, in order
+	Hks   [][]hkEntry `json:"hks,omitempty"`   // the exotic items of each line
+	Keys  []string    `json:"keys,omitempty"`  // the finding-key class of each record
 }
 
 const maxEventText = 4000 // longer texts are round-tripped but not lexed by TLC (quadratic)
+
+// Quick tier: the "lengths" family (hundreds of long blobs) sends texts up to 1100 characters to TLC (512 octets in hex,
+// 769 in base64: the first multiples of every word size), the thorough tier up to maxEventText; zones up to 1500 characters
+// in both tiers (longer ones are read by the zone parser only).
+const (
+	quickLengthsText = 1100
+	quickZoneText    = 1500
+)
 
 type run struct {
 	sum   hx.Summary
@@ -165,6 +179,7 @@ type run struct {
 	seen  map[[20]byte]bool
 	ambig map[string]int
 	stat  map[string]int
+	limit int // 0, or this run's bound on the text of an event sent to TLC
 }
 
 func newRun(out string) *run {
@@ -233,9 +248,8 @@ func diffPart(a, b []byte) string {
 }
 
 // roundTrip: the C05 clauses observable in Go.  Returns the text and the original's octets.
-func (r *run) roundTrip(rr dns.RR, key string, alpha bool, s src, c interface{}) {
+func (r *run) roundTrip(rr dns.RR, key string, alpha bool, s src, c interface{}) (text string, ow []byte, alone bool) {
 	r.sum.Evaluations++
-	var text string
 	if p := hx.Catch(func() { text = rr.String() }); p != "" {
 		r.mis(alpha, "present/string-panic:"+key, "String() panics: "+p, c)
 		return
@@ -245,23 +259,142 @@ func (r *run) roundTrip(rr dns.RR, key string, alpha bool, s src, c interface{})
 		r.stat["original-does-not-pack"]++ // C01's business
 		return
 	}
+	alone = true // read alone, the text gives the record back (what a SEQUENCE adds is the zone stage's question)
 	r.seen[sha1.Sum([]byte(text))] = true
 	var rr2 dns.RR
 	var perr error
 	if p := hx.Catch(func() { rr2, perr = dns.NewRR(text) }); p != "" {
 		r.mis(alpha, "present/reparse-panic:"+key, "NewRR(String()) panics: "+p, c)
+		alone = false
 	} else if perr != nil || rr2 == nil {
 		r.mis(alpha, "present/reparse-error:"+key, fmt.Sprintf("NewRR(%.300q): %v", text, perr), c)
+		alone = false
 	} else if w2, err := packRR(rr2); err != nil {
 		r.mis(alpha, "present/reparse-pack-error:"+key, fmt.Sprintf("NewRR(%.300q) gives a record that does not pack: %v", text, err), c)
+		alone = false
 	} else if !bytes.Equal(ow, w2) {
 		r.mis(alpha, "present/reparse-"+diffPart(ow, w2)+":"+key, fmt.Sprintf("text %.300q: original packs to %.200x, re-parsed to %.200x", text, ow, w2), c)
+		alone = false
 	}
 	if r.last == nil && rr2 != nil && perr == nil {
 		r.respelled(rr, text, ow, key, alpha, c)
 	}
 	r.emit(event{Key: key, Text: hx.FromString(text), Wire: hx.FromBytes(ow), Hk: decodeHk(text), Src: s, Alpha: alpha, Gomis: r.last})
 	r.last = nil
+	return
+}
+
+// ---------------------------------------------------------------- sequences of records (a zone)
+
+// zent: one record of a sequence: it was unpacked from seg, prints as text, packs to ow, and text read ALONE gives it back.
+type zent struct {
+	seg  []byte
+	text string
+	ow   []byte
+	key  string
+}
+
+const maxZoneRecords = 8
+
+// zone: "the text produced by String() is accepted by the zone parser": the texts of a sequence of records, one per line,
+// are a zone; the zone parser must give exactly these records, in order (octets of each = the original's).  Every text of
+// the sequence has been read back alone before, so a failure here is about what FOLLOWS or PRECEDES a record.  Two texts:
+// every line ended by a line break, and the last line not ended.  Key = the record the parser was at when it went wrong.
+func (r *run) zone(es []zent, alpha bool, c interface{}) {
+	if len(es) < 2 {
+		return
+	}
+	if len(es) > maxZoneRecords {
+		es = es[:maxZoneRecords]
+	}
+	lines := make([]string, len(es))
+	for i, e := range es {
+		lines[i] = e.text
+	}
+	full := strings.Join(lines, "\n") + "\n"
+	for v, text := range []string{full, strings.TrimSuffix(full, "\n")} {
+		r.sum.Evaluations++
+		var got []dns.RR
+		var zerr error
+		if p := hx.Catch(func() {
+			zp := dns.NewZoneParser(strings.NewReader(text), "", "")
+			for rr, ok := zp.Next(); ok && len(got) < len(es)+4; rr, ok = zp.Next() {
+				got = append(got, rr)
+			}
+			zerr = zp.Err()
+		}); p != "" {
+			r.mis(alpha, "present/zone-panic:"+es[min(len(got), len(es)-1)].key, fmt.Sprintf("the zone parser panics on %.400q: %s", text, p), c)
+			break
+		}
+		bad := false
+		for i, e := range es {
+			if i >= len(got) {
+				if zerr != nil {
+					r.mis(alpha, "present/zone-error:"+e.key, fmt.Sprintf("zone text %.400q (the String() of %d records, each read back alone): record %d: %v", text, len(es), i+1, zerr), c)
+				} else {
+					r.mis(alpha, "present/zone-missing:"+e.key, fmt.Sprintf("zone text %.400q (the String() of %d records): the zone parser gives %d records", text, len(es), len(got)), c)
+				}
+				bad = true
+				break
+			}
+			w, err := packRR(got[i])
+			if err != nil {
+				r.mis(alpha, "present/zone-pack-error:"+e.key, fmt.Sprintf("zone text %.400q: record %d does not pack: %v", text, i+1, err), c)
+				bad = true
+				break
+			}
+			if !bytes.Equal(w, e.ow) {
+				r.mis(alpha, "present/zone-"+diffPart(e.ow, w)+":"+e.key, fmt.Sprintf("zone text %.400q: record %d packs to %.200x, the original to %.200x", text, i+1, w, e.ow), c)
+				bad = true
+				break
+			}
+		}
+		if !bad && (len(got) > len(es) || zerr != nil) {
+			r.mis(alpha, "present/zone-extra:"+es[len(es)-1].key, fmt.Sprintf("zone text %.400q (the String() of %d records): the zone parser gives %d records, error %v", text, len(es), len(got), zerr), c)
+			bad = true
+		}
+		if bad || v == 1 {
+			break
+		}
+	}
+	// the specification reads the zone (Trace_PresentRR, zone events): as many entries as records, entry i is record i
+	ev := event{Key: es[0].key, Zone: true, Text: hx.FromString(full), Hk: []hkEntry{}, Alpha: alpha, Gomis: r.last, Src: src{Origin: "zone"}}
+	r.last = nil
+	var all []byte
+	for _, e := range es {
+		ev.Wires = append(ev.Wires, hx.FromBytes(e.ow))
+		ev.Hks = append(ev.Hks, decodeHk(e.text))
+		ev.Keys = append(ev.Keys, e.key)
+		ev.Src.Segs = append(ev.Src.Segs, hx.FromBytes(e.seg))
+		all = append(all, e.ow...)
+	}
+	ev.Wire = hx.FromBytes(all)
+	r.emit(ev)
+}
+
+// rezone: a zone event again (reexec): the records unpacked from the octets they were unpacked from.
+func (r *run) rezone(e *event) {
+	var es []zent
+	for i, seg := range e.Src.Segs {
+		rr, _, err := dns.UnpackRR(seg.Bytes(), 0)
+		if err != nil {
+			hx.Die("reexec: %v", err)
+		}
+		var text string
+		if p := hx.Catch(func() { text = rr.String() }); p != "" {
+			hx.Die("reexec: String() panics: %s", p)
+		}
+		ow, err := packRR(rr)
+		if err != nil {
+			hx.Die("reexec: %v", err)
+		}
+		key := e.Key
+		if i < len(e.Keys) {
+			key = e.Keys[i]
+		}
+		es = append(es, zent{seg: seg.Bytes(), text: text, ow: ow, key: key})
+	}
+	r.zone(es, e.Alpha, e)
 }
 
 // respelled: "type and class may be written as mnemonic or TYPEnnn / CLASSnnn": the same text with the type (and then
@@ -305,7 +438,14 @@ func (r *run) emit(e event) {
 	if r.w == nil {
 		return
 	}
-	if len(e.Text) > maxEventText {
+	limit := maxEventText
+	if r.limit > 0 && !hx.Thorough() {
+		limit = r.limit
+	}
+	if e.Zone && limit > quickZoneText { // both tiers: the thorough tier records thousands of random zones
+		limit = quickZoneText
+	}
+	if len(e.Text) > limit {
 		r.stat["text-too-long-for-tlc"]++
 		if e.Gomis != nil { // nobody else will report it
 			r.sum.Mis(e.Gomis.Key, e.Gomis.What, e.Src)
@@ -484,6 +624,11 @@ func replay(path, out string) {
 			hx.Die("vector %s %v: %d offsets, %d alpha flags for %d records", v.G, v.V, len(v.Rroff), len(v.Alpha), len(rrs))
 		}
 		exp := v.Bytes.Bytes()
+		r.limit = 0
+		if v.G == "lengths" {
+			r.limit = quickLengthsText
+		}
+		var seq []zent
 		for k, a := range rrs {
 			if a.Nodata || a.Type == int(dns.TypeOPT) {
 				continue
@@ -521,8 +666,12 @@ func replay(path, out string) {
 				r.stat["spec-octets-do-not-unpack:"+key]++ // C01's business
 				continue
 			}
-			r.roundTrip(rr, key, alpha, src{Origin: "unpack", Seg: hx.FromBytes(seg)}, small(v))
+			if text, ow, alone := r.roundTrip(rr, key, alpha, src{Origin: "unpack", Seg: hx.FromBytes(seg)}, small(v)); alone && alpha {
+				seq = append(seq, zent{seg: seg, text: text, ow: ow, key: key})
+			}
 		}
+		// the records of one vector, in the vector's order, as a zone
+		r.zone(seq, true, small(v))
 	})
 	registry(&r.sum)
 	r.finish()
@@ -879,7 +1028,13 @@ func record(out string, n int) {
 		}
 	}
 	g := &gen{r: rnd}
+	var seq []zent
 	for i := 0; i < n; i++ {
+		// sequences of 2..6 random records as a zone
+		if len(seq) >= 2+i%5 {
+			r.zone(seq, true, map[string]interface{}{"zone-of-random-records": len(seq)})
+			seq = nil
+		}
 		a := wire.Normalize(g.record())
 		if skipC01(a, r) {
 			continue
@@ -895,7 +1050,9 @@ func record(out string, n int) {
 			r.roundTrip(rr, key, true, src{Origin: "random", A: a}, map[string]interface{}{"random": a})
 		} else if w, err := packRR(rr); err == nil {
 			if u, _, err := dns.UnpackRR(w, 0); err == nil {
-				r.roundTrip(u, key, true, src{Origin: "unpack", Seg: hx.FromBytes(w)}, map[string]interface{}{"random": a})
+				if text, ow, alone := r.roundTrip(u, key, true, src{Origin: "unpack", Seg: hx.FromBytes(w)}, map[string]interface{}{"random": a}); alone {
+					seq = append(seq, zent{seg: w, text: text, ow: ow, key: key})
+				}
 			}
 		}
 		if i < 3 {
@@ -929,6 +1086,8 @@ func reexec(in, out string) {
 			r.roundTrip(rr, e.Key, e.Alpha, e.Src, e)
 		case "generic":
 			r.emit(*e)
+		case "zone":
+			r.rezone(e)
 		case "generic-neg":
 			var rr2 dns.RR
 			var err2 error
